@@ -1,5 +1,5 @@
 """pyvc prototype: symbolic executor for a Python subset over the real cutplace source."""
-import ast, z3, copy as _copy
+import ast, os, z3, copy as _copy
 from .core import *
 from . import source as S
 
@@ -654,7 +654,9 @@ class Exec:
         if isinstance(a, Opaque) or isinstance(b, Opaque): yield st, Opaque(); return
         if isinstance(a, Sym) and a.ty.kind == "opt":
             isn = sort_of(a.ty).is_none(a.z)
-            if feasible(st.pc, isn): raise Unsupported("None operand feasible in binop")
+            if feasible(st.pc, isn):
+                if os.environ.get("VF_DEBUG"): print("DEBUG binop None: a=%s\n  pc tail:\n   %s" % (a.z, "\n   ".join(str(c)[:200] for c in st.pc[-14:])))
+                raise Unsupported("None operand feasible in binop")
             a = opt_payload(a)
         if isinstance(b, Sym) and b.ty.kind == "opt":
             if feasible(st.pc, sort_of(b.ty).is_none(b.z)): raise Unsupported("None operand feasible in binop")
